@@ -242,7 +242,15 @@ func (x *a64) IntersectAndTranspose(par int, found []uint64, nilFound bool) []ui
 	return arr64(x.b.IntersectAndTranspose(par, found64(x, found, nilFound, false)))
 }
 func (x *a64) TransposeWithCounts(par int, found []uint64, nilFound bool) map[uint64]int64 {
-	r := x.b.TransposeWithCounts(par, found64(x, found, nilFound, false), nil)
+	// filterSet selects which *values* are counted; pass every stored value so the histogram is complete
+	// (a nil filterSet defaults to the existence bitmap, i.e. only values that are also column ids)
+	filter := roaring64.New()
+	for _, c := range x.b.GetExistenceBitmap().ToArray() {
+		if v, ok := x.b.GetValue(c); ok && v >= 0 {
+			filter.Add(uint64(v))
+		}
+	}
+	r := x.b.TransposeWithCounts(par, found64(x, found, nilFound, false), filter)
 	out := map[uint64]int64{}
 	for _, c := range r.GetExistenceBitmap().ToArray() {
 		v, _ := r.GetValue(c)
